@@ -1,3 +1,6 @@
 import PPModel.Base.Sexp
+import PPModel.Base.PyList
 import PPModel.Mod.LineCol
+import PPModel.Mod.PR
 import PPModel.Driver.LineCol
+import PPModel.Driver.PR
